@@ -144,6 +144,15 @@ Fixpoint expand (e : expr) : expr :=
       let c := EAnd (ECmp CGe a lo) (ECmp CLe a hi) in if neg then ENot c else c
   | _ => e
   end.
+(* a = b as a <= b AND a >= b (through AND / OR / NOT) *)
+Fixpoint eq_range (e : expr) : expr :=
+  match e with
+  | EAnd a b => EAnd (eq_range a) (eq_range b)
+  | EOr a b => EOr (eq_range a) (eq_range b)
+  | ENot a => ENot (eq_range a)
+  | ECmp CEq a b => EAnd (ECmp CLe a b) (ECmp CGe a b)
+  | _ => e
+  end.
 (* columns renumbered *)
 Fixpoint remap (f : nat -> nat) (e : expr) : expr :=
   match e with
@@ -177,6 +186,7 @@ Definition is_taut (w : nat) (t : expr) : bool :=
 Inductive rewrite :=
 | RwStyle                                (* the same query in another surface syntax *)
 | RwMirror                               (* WHERE and every ON mirrored *)
+| RwEqRange                              (* every a = b of WHERE and of every ON as a <= b AND a >= b *)
 | RwCommTop | RwAssocR | RwAssocL | RwDeMorgan | RwNotNot | RwExpand      (* on WHERE *)
 | RwTrueConj (lft : bool) (t : expr)    (* WHERE p -> p AND t / t AND p; no WHERE -> WHERE t *)
 | RwItems (p : list nat)                 (* new item j = old item p[j] *)
@@ -188,6 +198,11 @@ Fixpoint mirror_from (f : from) : from :=
   match f with
   | FTab i => FTab i
   | FJoin k l r on => FJoin k (mirror_from l) (mirror_from r) (mirror on)
+  end.
+Fixpoint eq_range_from (f : from) : from :=
+  match f with
+  | FTab i => FTab i
+  | FJoin k l r on => FJoin k (eq_range_from l) (eq_range_from r) (eq_range on)
   end.
 Definition mirror_kind (k : jkind) : jkind :=
   match k with JLeft => JRight | JRight => JLeft | k => k end.
@@ -209,6 +224,7 @@ Definition apply_rw (d : db) (rw : rewrite) (q : query) : option (query * list n
   match rw with
   | RwStyle => Some (q, [])
   | RwMirror => Some (mkQuery (mirror_from (q_from q)) (option_map mirror (q_where q)) (q_star q) (q_items q), [])
+  | RwEqRange => Some (mkQuery (eq_range_from (q_from q)) (option_map eq_range (q_where q)) (q_star q) (q_items q), [])
   | RwCommTop => on_where comm_top q
   | RwAssocR => on_where assoc_r q
   | RwAssocL => on_where assoc_l q
